@@ -8,7 +8,7 @@ CONSTANTS
   RspData = {}
   MaxReq = 0
   MaxFlush = 0
-INVARIANTS ExactlyOnceDown ExactlyOnceUp PhysAddr PayloadPreserved RspToOriginal NoCrossPID NoGhost FlushEmpty
+INVARIANTS TOnceDown TOnceUp TPhysAddr TPayload TRspToOriginal NoCrossPID NoGhost FlushEmpty
 CONSTRAINT HW
 POSTCONDITION Accepted
 CHECK_DEADLOCK FALSE
